@@ -383,6 +383,34 @@ func checkC20(c *Ctx) Meta {
 					}
 				}
 			})
+			// the LAN list holds nothing but looked-up rules: it starts empty (a list made with a length holds
+			// zero networks, and the zero network contains the nil IP that an address without host part
+			// resolves to) and grows by the appends judged above only
+			for _, g := range bodyFns(gf, nil) {
+				if g == fn {
+					continue
+				}
+				allInstrsShallow(g, func(in ssa.Instruction) {
+					ms, ok := in.(*ssa.MakeSlice)
+					if !ok || !strings.Contains(ms.Type().String(), "net.IPNet") {
+						return
+					}
+					if k, isK := strip(ms.Len).(*ssa.Const); !isK || k.Value == nil || k.Value.ExactString() != "0" {
+						okLists = false
+						foundOnly = false
+					}
+				})
+				allInstrsShallow(g, func(in ssa.Instruction) {
+					st, ok := in.(*ssa.Store)
+					if !ok {
+						return
+					}
+					if ia, isIA := st.Addr.(*ssa.IndexAddr); isIA && strings.Contains(ia.X.Type().String(), "[]net.IPNet") {
+						okLists = false // an element written in place: not an append of a looked-up rule
+						foundOnly = false
+					}
+				})
+			}
 			// the wildcard is switched on only by the "*" entry: every store of the constant true into a
 			// boolean cell (local, captured variable, field of a new object) in the constructor's body is
 			// dominated by the true edge of a comparison with "*", and there is one
